@@ -19,6 +19,7 @@ make_shadow() {
     cp -r /repo/src "$SH/src"
     find "$SH/src" -name '*.rs' -print0 | xargs -0 sed -i -E \
         -e 's/(::)?\bstd::sync\b/crate::__verif_sync/g' \
+        -e 's/(::)?\bcore::sync::atomic\b/crate::__verif_sync::atomic/g' \
         -e 's/(::)?\bstd::thread\b/crate::__verif_thread/g' \
         -e 's/(^|[^:A-Za-z_])thread_local!/\1shuttle::thread_local!/g'
     cat > "$SH/src/__verif_sync.rs" <<'RS'
